@@ -31,7 +31,7 @@ func nwConfigs(thorough bool) []nwCfg {
 							if (per == 2) != (ad == 3) {
 								continue
 							}
-							if feat[0] && pool != [2]int{0, 1} || feat[1] && pool == [2]int{0, 1} {
+							if feat[0] && pool == [2]int{1, 2} || feat[1] && pool == [2]int{0, 1} {
 								continue
 							}
 						}
@@ -151,7 +151,7 @@ func TestVerifC08(t *testing.T) {
 	if ev.Thorough() {
 		depth = 6
 	}
-	r.Rule(fmt.Sprintf("breadth-first search to depth %d over {podCreate, podDelete, reconcile, reconcile with failing status update, clock events, one-shot fault on the next Create/Attach/WaitFor/Assign/UnAssign/Detach/Delete/Describe call (before effect, quota / exhaustion / throttling codes, timeout after effect)} with the REAL ReconcileNode; on every transition the cloud call log is checked against the node's declared limits; from EVERY explored state a closure run (faults off, healthy reconcile loop) must reach a fixed point with every eligible pod bound, idle within [min,max], no further cloud mutation or status write, and — after the next full synchronisation — record == cloud with no interface leaked", depth))
+	r.Rule(fmt.Sprintf("breadth-first search to depth %d, from the empty cluster and from an initialised node, over {podCreate, podDelete, reconcile, reconcile with failing status update, clock events, one-shot fault on the next Create/Attach/WaitFor/Assign/UnAssign/Detach/Delete/Describe call (before effect, quota / exhaustion / throttling codes, timeout after effect)} with the REAL ReconcileNode; on every transition the cloud call log is checked against the node's declared limits; from EVERY explored state a closure run (faults off, healthy reconcile loop) must reach a fixed point with every eligible pod bound, idle within [min,max], no further cloud mutation or status write, and — after the next full synchronisation — record == cloud with no interface leaked", depth))
 	cfgs := nwConfigs(ev.Thorough())
 	si, sn := ev.Shard()
 	dl := ev.Deadline(150*time.Second, 40*time.Minute)
@@ -161,6 +161,8 @@ func TestVerifC08(t *testing.T) {
 		}
 		cfg := cfg
 		res := bfs.Run(bfs.Config{Name: cfg.String(), MaxDepth: depth, Deadline: dl,
+			// roots: the empty cluster and a node the controller has already initialised (its first interface settled)
+			Roots: [][]string{{}, {"reconcile", "reconcile"}},
 			Build: func(x *vrt.Exec) bfs.World { return &c08World{newNW(cfg)} },
 			OnState: func(x *vrt.Exec, w bfs.World, hist []string) {
 				af := false
